@@ -225,12 +225,19 @@ func (g *vfXGen) unknownAt(depth int, ns string, top bool) string {
 }
 
 var vfKnownMsgExt = []string{
+	`<delegation xmlns="urn:xmpp:delegation:1"><forwarded xmlns="urn:xmpp:forward:0"><delay xmlns="urn:xmpp:delay" stamp="2020-01-01T00:00:00Z"/><message xmlns="jabber:client" id="fwd"><body>x</body></message></forwarded></delegation>`,
+	`<delegation xmlns="urn:xmpp:delegation:1"><delegated namespace="urn:x"/><unknown-inside xmlns="urn:vf:u1"><message xmlns="jabber:client"/></unknown-inside></delegation>`,
+	`<event xmlns="http://jabber.org/protocol/pubsub#event"><items node="n"><retract node="r"/><item id="i"><entry xmlns="http://www.w3.org/2005/Atom"><title>t</title></entry></item><vf-extra xmlns="urn:vf:u2"/></items><vf-more xmlns="urn:vf:u2"><iq xmlns="jabber:client"/></vf-more></event>`,
 	`<active xmlns="http://jabber.org/protocol/chatstates"/>`, `<request xmlns="urn:xmpp:receipts"/>`, `<received xmlns="urn:xmpp:receipts" id="r1"/>`,
 	`<x xmlns="jabber:x:oob"><url>http://x/y</url></x>`, `<no-store xmlns="urn:xmpp:hints"/>`, `<markable xmlns="urn:xmpp:chat-markers:0"/>`,
 	`<html xmlns="http://jabber.org/protocol/xhtml-im"><body xmlns="http://www.w3.org/1999/xhtml"><p>hi<message/></p></body></html>`,
 	`<event xmlns="http://jabber.org/protocol/pubsub#event"><items node="n"><item id="i"><message xmlns="jabber:client"><body>in</body></message></item></items></event>`,
 }
 var vfKnownIQPayload = []string{
+	`<delegation xmlns="urn:xmpp:delegation:1"><forwarded xmlns="urn:xmpp:forward:0"><delay xmlns="urn:xmpp:delay" stamp="2020-01-01T00:00:00Z"/><iq xmlns="jabber:client" id="fwd" type="get"><query xmlns="jabber:iq:version"/></iq></forwarded></delegation>`,
+	`<query xmlns="http://jabber.org/protocol/disco#info"><identity category="c" type="t"><vf-x xmlns="urn:vf:u1"/></identity><vf-y xmlns="urn:vf:u1"><iq xmlns="jabber:client"/></vf-y></query>`,
+	`<command xmlns="http://jabber.org/protocol/commands" node="n" status="executing"><actions execute="next"><next/><vf-z xmlns="urn:vf:u2"/></actions><x xmlns="jabber:x:data" type="form"><field var="a"><value>1</value><vf-w xmlns="urn:vf:u2"/></field></x></command>`,
+	`<pubsub xmlns="http://jabber.org/protocol/pubsub#owner"><configure node="n"><x xmlns="jabber:x:data" type="submit"/><vf-v xmlns="urn:vf:u1"/></configure></pubsub>`,
 	`<query xmlns="http://jabber.org/protocol/disco#info"><identity category="c" type="t"/><feature var="f"/></query>`,
 	`<query xmlns="jabber:iq:version"><name>n</name></query>`, `<query xmlns="jabber:iq:roster"><item jid="a@b"><group>g</group></item></query>`,
 	`<bind xmlns="urn:ietf:params:xml:ns:xmpp-bind"><jid>a@b/c</jid></bind>`,
